@@ -215,7 +215,7 @@ struct CoroBox {
 struct Stats {
   long ops[OP_KIND_COUNT] = {};
   long calls_accepted = 0, calls_rejected = 0, resumes = 0, late_resumes = 0, interleaved_resumes = 0, destroyed_unfinished = 0, eager = 0, lazy = 0, clause_throw = 0,
-       completed = 0, threw_at_await = 0, multi_call_same_exp = 0, lazy_with_param = 0, mutations = 0, referent_mutations = 0;
+       completed = 0, threw_at_await = 0, multi_call_same_exp = 0, lazy_with_param = 0, mutations = 0, referent_mutations = 0, mock_deaths = 0;
 };
 
 class ExecC {
@@ -266,6 +266,7 @@ class ExecC {
       case OP_CO_RESUME: do_resume(op); break;
       case OP_CO_DESTROY: do_destroy(op); break;
       case OP_RELEASE: do_release(op); break;
+      case OP_DESTROY_MOCK: do_destroy_mock(); break;
       case OP_MUTATE: do_mutate(op); break;
       default: break;
     }
@@ -289,6 +290,25 @@ class ExecC {
     eps[static_cast<size_t>(e.id)] = d.make(*mock, *x);
     insts[static_cast<size_t>(e.id)] = std::move(x);
     if (!reports.empty()) fail("expect_report", "creating an expectation reported: " + reports[0].msg);
+  }
+
+  // the mock object dies while expectations on it are alive and coroutines of earlier calls are suspended: the
+  // expectations outlive it (NAMED), so those coroutines go on evaluating their clauses when they are resumed
+  void do_destroy_mock() {
+    int want = 0;
+    for (int f = 0; f < NCF; ++f) {
+      for (int pass = 0; pass < 2; ++pass) {
+        auto& lst = pass ? M.saturated[f] : M.active[f];
+        for (int id : lst) { MExpC& e = M.exps[static_cast<size_t>(id)]; if (!e.named && !M.sat(e)) { ++want; e.named = true; } e.attached = false; e.saturated = false; }
+        lst.clear();
+      }
+    }
+    // (their registrations in the sequence stay until the expectation objects are released, in the model as in the library)
+    delete mock; mock = new MockC;
+    ++st.mock_deaths;
+    int got = 0; bool bad = false;
+    for (auto& r : reports) { if (r.fatal || r.msg.rfind("Pending expectation on destroyed mock object", 0) != 0) bad = true; else ++got; }
+    if (bad || got != want) fail("mock_death", "destroying the mock reported " + std::to_string(reports.size()) + " violations, " + std::to_string(want) + " pending expectations were expected to be named");
   }
 
   // the local a clause mentions changes after the expectation was written: plain clauses copied it, LR_ clauses see it
@@ -531,13 +551,14 @@ static Plan gen_plan(uint64_t seed, bool faults, bool lazy_params) {
   auto mk_expect = [&]() { Op o; o.kind = OP_EXPECT; int sh = rng.below(ncshapes); for (int t = 0; t < 6 && cshapes[sh].fn != focus; ++t) sh = rng.below(ncshapes); o.a[0] = sh; o.a[2] = rng.below(3); o.a[3] = rng.below(50); o.a[5] = rng.below(3); o.a[6] = rng.below(3); return o; };
   ops.push_back(mk_expect());
   for (int i = 0; i < len; ++i) {
-    static const int w[] = {20, 30, 35, 5, 6, 8};
+    static const int w[] = {20, 30, 35, 5, 6, 8, 2};
     Op o;
-    switch (rng.pick(w, 6)) {
+    switch (rng.pick(w, 7)) {
       case 0: o = mk_expect(); break;
       case 1: o.kind = OP_CO_CALL; o.a[1] = rng.chance(3, 4) ? focus : rng.below(NCF); o.a[2] = rng.below(3); if (faults && rng.chance(1, 8)) { o.fault = FK_THROW; o.fault_at = rng.below(5); } break;
       case 2: o.kind = OP_CO_RESUME; o.a[0] = rng.below(8); if (faults && rng.chance(1, 10)) o.fault = FK_THROW; break;
       case 3: o.kind = OP_CO_DESTROY; o.a[0] = rng.below(8); break;
+      case 6: o.kind = OP_DESTROY_MOCK; break;
       case 5: o.kind = OP_MUTATE; o.a[0] = rng.below(8); o.a[1] = rng.below(8); o.a[2] = (focus == CF_CR || rng.chance(1, 4)) ? rng.below(2) : 0; break;
       default: o.kind = OP_RELEASE; o.a[0] = rng.below(8); break;
     }
@@ -619,7 +640,7 @@ int main(int argc, char** argv) {
       if (ex->st.calls_accepted) mask = 1u << 14;
       for (int i = 0; i < OP_KIND_COUNT; ++i) tot.ops[i] += ex->st.ops[i];
 #define ADD(f) tot.f += ex->st.f;
-      ADD(calls_accepted) ADD(calls_rejected) ADD(resumes) ADD(late_resumes) ADD(interleaved_resumes) ADD(destroyed_unfinished) ADD(eager) ADD(lazy) ADD(clause_throw) ADD(completed) ADD(threw_at_await) ADD(multi_call_same_exp) ADD(lazy_with_param) ADD(mutations) ADD(referent_mutations)
+      ADD(calls_accepted) ADD(calls_rejected) ADD(resumes) ADD(late_resumes) ADD(interleaved_resumes) ADD(destroyed_unfinished) ADD(eager) ADD(lazy) ADD(clause_throw) ADD(completed) ADD(threw_at_await) ADD(multi_call_same_exp) ADD(lazy_with_param) ADD(mutations) ADD(referent_mutations) ADD(mock_deaths)
 #undef ADD
       if (failed) {
         std::string path = out + "/seedC-" + std::to_string(s) + ".replay";
@@ -642,7 +663,7 @@ int main(int argc, char** argv) {
   js << "},\"calls_accepted\":" << tot.calls_accepted << ",\"calls_rejected\":" << tot.calls_rejected << ",\"f_late_resume\":" << tot.late_resumes << ",\"f_interleaved_resume\":" << tot.interleaved_resumes
      << ",\"f_clause_throw\":" << tot.clause_throw << ",\"f_abandon\":" << tot.destroyed_unfinished << ",\"f_fatal_unwind\":" << tot.calls_rejected
      << ",\"p_resumes\":" << tot.resumes << ",\"p_eager_calls\":" << tot.eager << ",\"p_lazy_calls\":" << tot.lazy << ",\"p_completed\":" << tot.completed << ",\"p_threw_at_await\":" << tot.threw_at_await
-     << ",\"p_multi_call_same_expectation\":" << tot.multi_call_same_exp << ",\"p_lazy_with_parameter\":" << tot.lazy_with_param << ",\"p_local_mutated_after_creation\":" << tot.mutations << ",\"p_referent_changed_before_resume\":" << tot.referent_mutations << ",\"flag_observations\":0}";
+     << ",\"p_multi_call_same_expectation\":" << tot.multi_call_same_exp << ",\"p_lazy_with_parameter\":" << tot.lazy_with_param << ",\"p_local_mutated_after_creation\":" << tot.mutations << ",\"p_referent_changed_before_resume\":" << tot.referent_mutations << ",\"f_owner_death\":" << tot.mock_deaths << ",\"flag_observations\":0}";
   std::printf("STATS %s\n", js.str().c_str());
   (void)faults_fired0;
   bool any_failed = false;
